@@ -214,6 +214,15 @@ def commit_inv(E, fr, P):
 
 
 def register(reg):
+    _register(reg)
+    for q, op in (("__getitem__", "getitem"), ("__contains__", "contains"), ("__setitem__", "setitem"),
+                  ("__delitem__", "delitem"), ("batch_commit", "commit")):
+        c = reg.contracts[MOD + ":ScratchDB." + q]
+        c.witness = witness
+        c.replay = make_replay(op)
+
+
+def _register(reg):
     g = "scratchdb"
     reg.add(g, Contract(MOD + ":ScratchDB.__getitem__", ["self", "key"], getitem_cases, setup=setup_key, props=("C17",)))
     reg.add(g, Contract(MOD + ":ScratchDB.__contains__", ["self", "key"], contains_cases, setup=setup_key, props=("C17",)))
@@ -225,3 +234,129 @@ def register(reg):
     reg.add(g, Contract(MOD + ":ScratchDB.batch_commit", ["self", "do_deletes"], commit_cases, setup=setup_commit,
                         props=("C17", "C04", "C05"), body_model=commit_body_model,
                         loops={0: LoopSpec(commit_inv, havoc=lambda fr: [fr.locals["self"].fields["wrapped_db"]])}))
+
+
+# ---------------------------------------------------------------------------------------------------
+# counterexample -> concrete replay on the real ScratchDB
+
+def _enc(v):
+    if isinstance(v, bytes):
+        return {"b": v.hex()}
+    if isinstance(v, tuple) and v and v[0] == "<sentinel>":
+        return {"deleted": True}
+    if isinstance(v, (int, bool)) or v is None:
+        return {"v": v}
+    return {"v": repr(v)}
+
+
+def _dec(j, DELETED):
+    if "b" in j:
+        return bytes.fromhex(j["b"])
+    if j.get("deleted"):
+        return DELETED
+    return j["v"]
+
+
+def witness(E, ctx, model):
+    from pyvc import model as M
+    s = ctx.self
+    W = s.fields.get("wrapped_db") if "wrapped_db" in ctx.snap.fields.get(id(s), {}) else None
+    snapf = ctx.snap.fields.get(id(s), {})
+    W, C = snapf.get("wrapped_db"), snapf.get("cache")
+    out = {}
+    arrays, extra = [], []
+    if hasattr(ctx, "key"):
+        extra.append(ctx.key.t)
+        out["key"] = M.value(model, ctx.key).hex()
+    if hasattr(ctx, "value"):
+        out["value"] = _enc(M.value(model, ctx.value))
+    if hasattr(ctx, "do_deletes"):
+        out["do_deletes"] = M.value(model, ctx.do_deletes)
+    cb = E.ghost.get("C_body")
+    dec = lambda m, t: _enc(M.pyval(m, t))
+    if W is not None:
+        arrays += [ctx.old_has(W), ctx.old_val(W)]
+    if C is not None:
+        arrays += [ctx.old_has(C), ctx.old_val(C)]
+    if cb is not None:
+        arrays += [cb[0], cb[1]]
+    keys = M.interesting_keys(model, arrays, extra)
+    if W is not None:
+        out["W"] = {k.hex(): v for k, v in M.dict_at(model, ctx.old_has(W), ctx.old_val(W), keys, dec).items()}
+    if C is not None:
+        out["C"] = {k.hex(): v for k, v in M.dict_at(model, ctx.old_has(C), ctx.old_val(C), keys, dec).items()}
+    if cb is not None:
+        out["C_body"] = {k.hex(): v for k, v in M.dict_at(model, cb[0], cb[1], keys, dec).items()}
+        out["raised"] = E.ghost.get("raised") is not None
+    return out
+
+
+def make_replay(op):
+    def replay(model, clause):
+        w = (model or {}).get("__witness__")
+        if not w:
+            return None
+        from trie.utils.db import ScratchDB, DELETED
+        Wd = {bytes.fromhex(k): _dec(v, DELETED) for k, v in w.get("W", {}).items()}
+        Cd = {bytes.fromhex(k): _dec(v, DELETED) for k, v in w.get("C", {}).items()}
+        before = dict(Wd)
+        s = ScratchDB(Wd)
+        s.cache = dict(Cd)
+        key = bytes.fromhex(w["key"]) if "key" in w else None
+
+        def live(k):
+            return k in Cd and Cd[k] is not DELETED
+        if op == "getitem":
+            want = Cd[key] if live(key) else before.get(key, KeyError)
+            try:
+                got = s[key]
+            except KeyError:
+                got = KeyError
+            if got != want or Wd != before:
+                return "ScratchDB(W=%r, cache=%r)[%r] gave %r, required %r" % (before, Cd, key, got, want)
+        elif op == "contains":
+            want = live(key) or key in before
+            got = key in s
+            if got != want:
+                return "%r in ScratchDB(W=%r, cache=%r) gave %r, required %r" % (key, before, Cd, got, want)
+        elif op in ("setitem", "delitem"):
+            if op == "setitem":
+                val = _dec(w["value"], DELETED)
+                s[key] = val
+                Cd[key] = val
+            else:
+                del s[key]
+                Cd[key] = DELETED
+            if s.cache != Cd or Wd != before:
+                return "after %s(%r): cache=%r wrapped=%r, required cache=%r wrapped=%r" % (op, key, s.cache, Wd, Cd, before)
+        elif op == "commit":
+            body = {bytes.fromhex(k): _dec(v, DELETED) for k, v in w.get("C_body", {}).items()}
+            dd = bool(w.get("do_deletes"))
+
+            class Boom(Exception):
+                pass
+            try:
+                with s.batch_commit(do_deletes=dd):
+                    s.cache = dict(body)
+                    if w.get("raised"):
+                        raise Boom()
+                outcome = "normal"
+            except Boom:
+                outcome = "Boom"
+            except Exception as e:
+                outcome = "unexpected %r" % (e,)
+            want = dict(before)
+            if not w.get("raised"):
+                for k, v in body.items():
+                    if v is not DELETED:
+                        want[k] = v
+                    elif dd:
+                        want.pop(k, None)
+            want_outcome = "Boom" if w.get("raised") else "normal"
+            if outcome != want_outcome or Wd != want or s.cache != {}:
+                return ("batch_commit(do_deletes=%r) over W=%r with buffered %r, block %s: outcome %s, wrapped=%r, "
+                        "buffer=%r; required outcome %s, wrapped=%r, buffer={}"
+                        % (dd, before, body, "raises" if w.get("raised") else "completes", outcome, Wd, s.cache,
+                           want_outcome, want))
+        return None
+    return replay
